@@ -4,9 +4,11 @@ Line-protocol driver for the C12 correspondence: evaluates the very
 definitions of `SpecVerif.C12` that the theorems of `Props/C12.lean` are about.
 
 Input (one command per line, tokens separated by single spaces):
-  sp <6 flag chars> <layout> <getter token>+
+  sp <6 flag chars>[<ann>] <layout> <getter token>+
                                         start a spec_property case; flags in the order
-                                        overridable cache hasSetter hasDeleter hasGetter allowAttrErr;
+                                        overridable cache hasSetter hasDeleter hasGetter allowAttrErr; the optional 7th
+                                        char is the annotation every annotating class gives `x`: `i` int (default),
+                                        `o` Optional[int], `y` Any, `t` str (decides `conforms` and `construct`);
                                         <layout> is the inheritance chain of type(instance), base first, classes
                                         separated by `/`, each a subset of the letters `s` (decorated with
                                         @spec_class) `d` (declares the spec_property) `a` (annotates x) `p` (defines
@@ -18,6 +20,11 @@ Input (one command per line, tokens separated by single spaces):
                                         overridable cache perSubclass hasSetter hasDeleter
                                         hasGetter allowAttrErr
   r | a <val> | d | b                    spec_property ops: read / assign / delete / bump
+  c | w <val> | u <val> | Z | y <val> | W <val> | R
+                                         instance-level ops: obj = copy.deepcopy(obj) / obj = obj.with_y(v) /
+                                         obj = obj.update_y(v) / obj = obj.reset_y() / obj.y = v (in place) /
+                                         obj = obj.with_x(v) / obj = obj.reset_x()   (`y: int = 0` is another managed
+                                         attribute of every decorated class)
   r <t> | a <t> <val> | d <t> | b        classproperty ops; target `c<k>` (class k) or `o<k>` (instance of k)
   @<k> <op>                              rewind to the state reached after the first k operations of the
                                          current path, then apply <op> (the models are pure, so a whole tree of
@@ -29,7 +36,9 @@ Value tokens: `i<int>` `s<int>` (the str "s<int>") `M` `E` `U` (sentinels) and t
 The getter on underlying state n yields token n mod len; a classproperty getter
 invoked on class k adds 100*(k+1) to an int token >= 10.
 Output (one line per input line):
-  spec_property:  `<out> ;; <slot> ;; <under> ;; <log>`
+  spec_property:  `<out> ;; <slot> ;; <under> ;; <y> ;; <log>`; for an instance-level op that succeeded <out> is
+                  `ok same` (the instance itself was returned) or `ok new ^<slot>|<under>|<y>|<log>` (a new instance;
+                  after `^` the state of the instance the op was applied to, which must not have changed)
   classproperty:  `<out> ;; <cache> ;; <under> ;; <log>`
 -/
 open SpecVerif.Py SpecVerif.C12
@@ -69,7 +78,8 @@ def parseG (s : String) : Option (Except Err V) :=
   else if s == "z" then some (.ok .pcf)
   else (parseV s).map .ok
 
-/-- the harness's `_prepare_x` (97, 96 and the strs s3, s7, … make it raise) -/
+/-- the harness's `_prepare_x` (97, 96 and the strs s3, s7, … make it raise; the falsy None / "" / [] are real
+values and become 3000 / 3001 / 3002) -/
 def thePreparer : V → Except Err V
   | .int n =>
     if n = 99 then .ok .missing else if n = 98 then .ok (.int 0)
@@ -77,19 +87,35 @@ def thePreparer : V → Except Err V
     else .ok (.int (n + 1000))
   | .false_ => .ok (.int 1000)          -- `False + 1000`
   | .str n => if n % 2 = 0 then .ok (.int (n + 2000)) else if n % 4 = 3 then .error .valueError else .ok (.str n)
+  | .none_ => .ok (.int 3000)
+  | .estr => .ok (.int 3001)
+  | .elist => .ok (.int 3002)
   | v => .ok v
 
 def tableGet (tab : Array (Except Err V)) (n : Nat) : Except Err V :=
   if tab.size = 0 then .ok (.int 0) else tab[n % tab.size]!
 
-def mkWorld (tab : Array (Except Err V)) : World V :=
+def isIntLike : V → Bool
+  | .int _ => true | .false_ => true | _ => false
+
+/-- `ann`: the annotation of `x` — `i` int, `o` Optional[int], `y` Any, `t` str. `construct` is what
+`attr_spec.constructor()` gives: `int()`, `str()`, and TypeError for `typing.Union()` / `typing.Any()`. -/
+def mkWorld (ann : Char) (tab : Array (Except Err V)) : World V :=
   { getter := fun n => match tableGet tab n with
       | .ok .pcf => .ok (.int 0)
       | o => o
     preparer := thePreparer
-    conforms := fun v => match v with | .int _ => true | .false_ => true | _ => false
-    construct := .int 0
+    conforms := fun v =>
+      if ann == 'o' then isIntLike v || v == .none_
+      else if ann == 'y' then true
+      else if ann == 't' then (match v with | .str _ => true | .estr => true | _ => false)
+      else isIntLike v
+    construct :=
+      if ann == 'o' || ann == 'y' then .error .typeError else if ann == 't' then .ok .estr else .ok (.int 0)
     missing := .missing, empty := .empty, unchanged := .unchanged }
+
+/-- the other attribute `y: int = 0` -/
+def theOther : Other V := { dflt := .int 0, construct := .int 0, conforms := isIntLike }
 
 def mkCWorld (tab : Array (Except Err V)) : CWorld Nat V :=
   { getter := fun k n =>
@@ -101,7 +127,7 @@ def mkCWorld (tab : Array (Except Err V)) : CWorld Nat V :=
 def flag (s : String) (i : Nat) : Bool := (s.toList.getD i '0') == '1'
 
 def parseOpts (s : String) : Option Opts :=
-  if s.length ≠ 6 then none else
+  if s.length ≠ 6 ∧ s.length ≠ 7 then none else
   some { overridable := flag s 0, cache := flag s 1, hasSetter := flag s 2, hasDeleter := flag s 3,
          hasGetter := flag s 4, allowAttrErr := flag s 5 }
 
@@ -161,13 +187,14 @@ def showCache (m : Option Nat → Option V) : String :=
   let parts := keys.filterMap fun (n, k) => (m k).map fun v => n ++ "=" ++ v.show
   "{" ++ ",".intercalate parts ++ "}"
 
-def showSt (s : St V) : String := s!"{showOpt s.slot} ;; {s.under} ;; {showLog s.log}"
+def showSt (o : Obj V) : String := s!"{showOpt o.st.slot} ;; {o.st.under} ;; {showOpt o.other} ;; {showLog o.st.log}"
+def showStBar (o : Obj V) : String := s!"{showOpt o.st.slot}|{o.st.under}|{showOpt o.other}|{showLog o.st.log}"
 def showCSt (s : CSt Nat V) : String := s!"{showCache s.cache} ;; {s.under} ;; {showCLog s.log}"
 
 /-- `stack[k]` is the state after the first `k` operations of the current path. -/
 inductive Mode
   | none
-  | sp (w : World V) (c : Cfg) (stack : Array (St V))
+  | sp (w : World V) (c : Cfg) (stack : Array (Obj V))
   | cp (w : CWorld Nat V) (c : CCfg) (stack : Array (CSt Nat V))
 
 /-- split an optional `@k` prefix off the tokens -/
@@ -176,13 +203,24 @@ def splitDepth (ts : List String) : Option Nat × List String :=
   | t :: rest => if t.startsWith "@" then ((t.drop 1).toString.toNat?, rest) else (none, ts)
   | [] => (none, [])
 
-def parseOp (ts : List String) : Option (Op V) :=
+def parseOp (ts : List String) : Option (OOp V) :=
   match ts with
-  | ["r"] => some .read
-  | ["a", v] => (parseV v).map .assign
-  | ["d"] => some .delete
-  | ["b"] => some .bump
+  | ["r"] => some (.prop .read)
+  | ["a", v] => (parseV v).map fun x => .prop (.assign x)
+  | ["d"] => some (.prop .delete)
+  | ["b"] => some (.prop .bump)
+  | ["c"] => some .copy
+  | ["w", v] => (parseV v).map .withOther
+  | ["u", v] => (parseV v).map .withOther     -- `update_y(v)`: the same model operation, another helper
+  | ["Z"] => some .resetOther
+  | ["y", v] => (parseV v).map .setOther
+  | ["W", v] => (parseV v).map .withSelf
+  | ["R"] => some .resetSelf
   | _ => none
+
+def isProp : OOp V → Bool
+  | .prop _ => true
+  | _ => false
 
 def parseCOp (ts : List String) : Option (COp Nat V) :=
   match ts with
@@ -197,8 +235,9 @@ def handle (m : Mode) (line : String) : Mode × String :=
   | "sp" :: flags :: layout :: tab =>
     match parseOpts flags, parseLayout layout, tab.mapM parseG with
     | some o, some l, some t =>
-      let s : St V := St.init
-      (.sp (mkWorld t.toArray) (cfgOf o l) #[s], "ok ;; " ++ showSt s)
+      let c := cfgOf o l
+      let s : Obj V := Obj.init c theOther
+      (.sp (mkWorld (flags.toList.getD 6 'i') t.toArray) c #[s], "ok ;; " ++ showSt s)
     | _, _, _ => (m, "bad-op")
   | "cp" :: flags :: tab =>
     match parseCCfg flags, tab.mapM parseG with
@@ -214,8 +253,12 @@ def handle (m : Mode) (line : String) : Mode × String :=
       let k := dep.getD (stack.size - 1)
       match parseOp ts, stack[k]? with
       | some op, some s =>
-        let (s', o) := step w c s op
-        (.sp w c ((stack.extract 0 (k + 1)).push s'), showOut o ++ " ;; " ++ showSt s')
+        let (s', o, fresh) := ostep w c theOther s op
+        let how := if isProp op then "" else
+          match o with
+          | .done => if fresh then " new ^" ++ showStBar s else " same"
+          | _ => ""
+        (.sp w c ((stack.extract 0 (k + 1)).push s'), showOut o ++ how ++ " ;; " ++ showSt s')
       | _, _ => (m, "bad-op")
     | .cp w c stack =>
       let k := dep.getD (stack.size - 1)
